@@ -691,8 +691,12 @@ class ManifestRecursiveLoader:
 
         with MultiprocessingPoolWrapper(self.max_jobs) as pool:
             # verify the directories in parallel
-            ret = all(pool.imap_unordered(
-                verifier, _walk_directory(it), chunksize=64))
+            # (do not use all() here: it would stop scanning at the first
+            # directory for which a non-raising fail handler returned False)
+            ret = True
+            for dir_ret in pool.imap_unordered(
+                    verifier, _walk_directory(it), chunksize=64):
+                ret &= dir_ret
 
             # check for missing directories
             for relpath, dirdict in entry_dict.items():
